@@ -700,3 +700,19 @@ Proof.
   rewrite B11, A12, A13. cbn [andb].
   unfold s_static_out. destruct (i_emptydev (c_in c)); [now apply A14|reflexivity].
 Qed.
+
+(* the hypotheses of the theorems are satisfied by a concrete non-trivial input *)
+From LC Require Import Proofs.C06Example.
+Lemma ex_case_facts : wf ex_case = true /\ kf ex_case = 0%N /\ good_input (c_in ex_case)
+  /\ exists ms, stage_list (c_in ex_case) = Ok ms /\ (60 <= length ms)%nat.
+Proof.
+  assert (W : wf ex_case = true) by (vm_compute; reflexivity).
+  split; [exact W|]. split; [reflexivity|]. split; [exact (wf_good_input _ (wf_wf_facts _ W))|].
+  destruct (stage_list (c_in ex_case)) as [ms| |] eqn:E.
+  - exists ms. split; [reflexivity|].
+    assert (L : (60 <=? length (match stage_list (c_in ex_case) with Ok ms => ms | _ => [] end))%nat = true) by (vm_compute; reflexivity).
+    rewrite E in L. now apply Nat.leb_le.
+  - exfalso. assert (X : match stage_list (c_in ex_case) with Failed => false | _ => true end = true) by (vm_compute; reflexivity).
+    rewrite E in X. discriminate X.
+  - exfalso. exact (stage_list_nopanic _ E).
+Qed.
